@@ -81,7 +81,7 @@ func checkFileObject(keys ...string) checkerFunc {
 				// User specified a custom driver, which might have it's own way to set content
 				return nil
 			}
-			if _, ok := v["external"]; !ok {
+			if external, ok := v["external"]; !ok || external == false {
 				return fmt.Errorf("%s: one of %s must be set", p, strings.Join(keys, "|"))
 			}
 		}
